@@ -44,6 +44,8 @@ def expected(c):
     """-> ("accept"|"reject"|"config-error", why)"""
     if c["scheme"] == "ws":
         return "accept", "plain"
+    if c.get("no_ssl"):
+        return "reject", "no-ssl-module"  # without TLS support a wss target can only be refused
     trust = c["trust"]
     if trust.startswith("ctx"):
         verify = trust == "ctx-verified"
@@ -65,6 +67,27 @@ def expected(c):
         return "accept", f"verify={int(verify)} check={int(check)}"
     why = "untrusted-chain" if not chain_ok and name_ok else "wrong-name" if chain_ok else "untrusted-chain+wrong-name"
     return "reject", why
+
+
+class _CountingSockets:
+    """Stand-in for the `socket` module as websocket._http sees it: real sockets, but every successful TCP connect() is
+    counted per port - so the check knows how many connections each endpoint of the rig still has to report."""
+
+    def __init__(self, real):
+        self._real = real
+        self.connected = []
+        outer = self
+
+        class Sock(real.socket):
+            def connect(self, address):
+                r = super().connect(address)
+                outer.connected.append(address[1])
+                return r
+
+        self.socket = Sock
+
+    def __getattr__(self, name):
+        return getattr(self._real, name)
 
 
 def run_case(c):
@@ -120,6 +143,14 @@ def run_case(c):
         red.location = f"wss://{c['host']}:{tport}/tls".encode()
         url = f"ws://{c['host']}:{red.port}/start"
     raised, ws = None, None
+    import websocket._http as _H
+
+    had_ssl = getattr(_H, "HAVE_SSL", None)
+    real_socket_mod = _H.socket
+    counting = _CountingSockets(real_socket_mod)
+    _H.socket = counting
+    if c.get("no_ssl"):
+        _H.HAVE_SSL = False  # what the library sees when the ssl module cannot be imported
     try:
         try:
             if c.get("api") == "app":
@@ -143,6 +174,9 @@ def run_case(c):
                 except Exception:  # noqa: BLE001
                     pass
     finally:
+        _H.socket = real_socket_mod
+        if c.get("no_ssl"):
+            _H.HAVE_SSL = had_ssl
         for k, v in saved.items():
             os.environ.pop(k, None)
             if v is not None:
@@ -153,8 +187,7 @@ def run_case(c):
 
     if c.get("spelling") and isinstance(raised, ValueError):
         # an upper-case spelling of the scheme may be refused outright - but then nothing may have been sent anywhere
-        _t.sleep(0.05)
-        contacted = [e.kind for e in rig.all() if e.counts()[0] != before[id(e)] or e.counts()[1] != before[id(e)]]
+        contacted = sorted(set(counting.connected))  # every TCP connection the client opened during the call
         if contacted:
             obs.fail("scheme-case|refused-after-network-activity", f"{url}: endpoints contacted {contacted}")
         obs.cls = ("scheme-case", "refused")
@@ -162,11 +195,26 @@ def run_case(c):
         return obs
     if via:
         return _judge_redirect(c, obs, rig, target, before, raised, url)
-    need = [target] + ([rig.proxy] if c["proxy"] else [])
+    # how many connections each endpoint has to report: those the client's connect() calls completed (a call that
+    # failed before any network activity leaves nothing to wait for); if connect() returned, at least the usual ones
+    need = {}
+    for port in counting.connected:
+        need[port] = need.get(port, 0) + 1
+    if raised is None:
+        need.setdefault(rig.proxy.port if c["proxy"] else target.port, 1)
+    by_port = {e.port: e for e in rig.all()}
     end = _t.time() + 8.0
-    while _t.time() < end and not all(e.counts()[1] >= before[id(e)] + 1 for e in need):
+    unmet = lambda: [p for p, k in need.items() if p in by_port and by_port[p].counts()[1] < before[id(by_port[p])] + k]  # noqa: E731
+    while _t.time() < end and unmet():
         _t.sleep(0.002)
-    if not all(e.counts()[1] >= before[id(e)] + 1 for e in need) or not rig.settle(6.0):
+    # connections the proxy made on the client's behalf have to be reported as well
+    with rig.proxy.lock:
+        for r_ in rig.proxy.records:
+            if r_.get("upstream_port") is not None:
+                need[r_["upstream_port"]] = need.get(r_["upstream_port"], 0) + 1
+    while _t.time() < end and unmet():
+        _t.sleep(0.002)
+    if unmet() or not rig.settle(6.0):
         raise HarnessError(f"TLS rig did not settle (wall-clock) - inconclusive; cfg={c}")
     if isinstance(raised, (websocket.WebSocketTimeoutException, TimeoutError)) or "timed out" in str(raised or ""):
         raise HarnessError(f"wall-clock socket timeout during {c}: inconclusive")
@@ -317,6 +365,13 @@ def configs():
                         yield {"api": api, "scheme": "wss", "host": "localhost", "cert": cert, "proxy": proxy, "trust": trust, "cert_reqs": cr, "check_hostname": ch,
                                "server_hostname": sh, "env": None}
             yield {"api": api, "scheme": "ws", "host": "localhost", "cert": cert, "proxy": proxy, "trust": "none", "cert_reqs": "REQUIRED", "check_hostname": None, "server_hostname": "other.test", "env": None}
+    # the ssl module is not available: wss targets are refused (nothing in clear text), ws targets still work
+    for proxy in (False, True):
+        for api in (None, "create_connection", "app"):
+            for scheme in ("wss", "ws"):
+                for trust, cr in (("none", None), ("ca_certs=testca", None), ("none", "NONE")):
+                    yield {"no_ssl": True, "api": api, "scheme": scheme, "host": "localhost", "cert": "good", "proxy": proxy, "trust": trust, "cert_reqs": cr,
+                           "check_hostname": None, "server_hostname": None, "env": None}
     # a wss scheme spelled with upper-case letters is either refused (ValueError, nothing sent) or treated as wss - never as plain ws
     for cert in ("good", "rogue"):
         for sp in ("WSS", "Wss", "wsS"):
